@@ -2,15 +2,17 @@
    Only statements, each closed by `exact <lemma>`; the proofs live in Proofs/UnicodeProofs.v and
    Proofs/TextSitesProofs.v.  The functions quantified over are those of Model/TextSites.v applied to the
    conversions conv_* / str_* of Gen/TextSitesGen.v, i.e. to whatever conversion the Rust source calls at that
-   site today (re-read on every run).  They describe the code AFTER the five fix commits (fill, clipboard,
-   IcyDraw cells, IcyDraw strings, fonts); the *_before_fix_refuted theorems are about the expressions before.
+   site today (re-read on every run).  They describe the code of the merged tree, i.e. AFTER the five C10 fix
+   commits (fill, clipboard, IcyDraw cells, IcyDraw strings, fonts) and the four fonts.rs commits of C17 (loop of
+   glyphs_from_u8_data bounded by height / data / MAX_GLYPHS, load_psf2 header validation, from_bytes length test);
+   the *_before_fix_refuted theorems are about the expressions (and, for fonts, the loop: glyphs_v0) before.
 
    scalar c     := c < 0xD800 \/ 0xE000 <= c < 0x110000
    is_utf8 bs   := exists cs, Forall scalar cs /\ bs = utf8_encode cs        (the specification of UTF-8)
    ev_scalar e  := the character of the stored cell e is scalar *)
 From Coq Require Import NArith ZArith Bool List.
 From IE Require Model.Sixel.
-From IE Require Import Model.Unicode Gen.TextSitesGen Model.TextSites Proofs.UnicodeProofs Proofs.TextSitesProofs.
+From IE Require Import Lib.Tbl Model.Unicode Gen.TextSitesGen Model.TextSites Proofs.UnicodeProofs Proofs.TextSitesProofs.
 Import ListNotations.
 Local Open Scope N_scope.
 
@@ -94,17 +96,48 @@ Theorem stored_scalar_glyphs : forall h data g,
   glyphs conv_glyphs h data = Done g -> Forall key_scalar g.
 Proof. exact stored_scalar_glyphs_proof. Qed.
 
+(* sharper, and from the loop bound alone: every key is below MAX_GLYPHS (= 0xD800), whichever of the two std
+   conversions the site calls *)
+Theorem glyphs_keys_below_max : forall conv, std_conv conv -> forall h data g,
+  glyphs conv h data = Done g -> Forall key_below_max g.
+Proof. exact glyphs_keys_below_max_proof. Qed.
+
+(* and from the conversion alone: a checked conversion stores scalar keys whatever the loop bound is *)
+Theorem stored_scalar_glyphs_checked : forall conv, checked conv -> forall h data g,
+  glyphs conv h data = Done g -> Forall key_scalar g.
+Proof. exact stored_scalar_glyphs_checked_proof. Qed.
+
 (* the keys are the glyph indices themselves and each maps to its own chunk of the data *)
 Theorem glyphs_keys_are_indices : forall h data g, glyphs conv_glyphs h data = Done g ->
   forall k gl, In (k, gl) g ->
-  scalar k /\ gl = firstn h (skipn (N.to_nat k * h) data) /\ ((N.to_nat k + 1) * h <= length data)%nat.
+  k < MAX_GLYPHS /\ scalar k /\ gl = firstn h (skipn (N.to_nat k * h) data) /\
+  ((N.to_nat k + 1) * h <= length data)%nat.
 Proof. exact glyphs_keys_are_indices_proof. Qed.
 
-Theorem glyphs_total : forall conv h data,
-  ((0 < h)%nat -> glyphs conv h data <> Diverge) /\ (h = O -> data <> [] -> glyphs conv h data = Diverge).
+(* the function returns for every height and all data (no endless loop for height 0, no slice panic on an
+   incomplete last glyph: both existed at the snapshot commit, see glyphs_v0) *)
+Theorem glyphs_total : forall conv h data, exists g, glyphs conv h data = Done g.
 Proof. exact glyphs_total_proof. Qed.
 
-(* calculate_checksum, convert_to_u8_data, to_psf2_bytes: every char they look up, for every font length *)
+(* BitFont::from_bytes (PSF1 / PSF2 / plain) returns Ok or Err for every byte string, and whatever it loads has
+   scalar keys below MAX_GLYPHS and a `length` (the bound of the three lookup loops) of at most MAX_GLYPHS, so that
+   those loops look up exactly the chars 0 .. length-1 *)
+Theorem font_from_bytes_total : forall conv data,
+  font_from_bytes conv data = Rejected \/ exists f, font_from_bytes conv data = Done f.
+Proof. exact font_from_bytes_total_proof. Qed.
+
+Theorem stored_scalar_loaded_font : forall data f, font_from_bytes conv_glyphs data = Done f ->
+  Forall key_scalar (ft_glyphs f) /\ Forall key_below_max (ft_glyphs f) /\ ft_length f <= MAX_GLYPHS /\
+  (forall conv, std_conv conv -> lookup_keys conv (ft_length f) = nrange (ft_length f)).
+Proof. exact stored_scalar_loaded_font_proof. Qed.
+
+(* BitFont::create_8 / from_basic *)
+Theorem stored_scalar_created_font : forall h data f, font_create conv_glyphs h data = Done f ->
+  Forall key_scalar (ft_glyphs f) /\ Forall key_below_max (ft_glyphs f) /\ ft_length f = 256.
+Proof. exact stored_scalar_created_font_proof. Qed.
+
+(* calculate_checksum, convert_to_u8_data, to_psf2_bytes: every char they look up, for every font length
+   (`length` is a public field: any i32 can be there) *)
 Theorem stored_scalar_font_lookups : forall len,
   Forall scalar (lookup_keys conv_checksum len) /\ Forall scalar (lookup_keys conv_u8data len) /\
   Forall scalar (lookup_keys conv_psf2 len).
@@ -136,8 +169,9 @@ Theorem icy_before_fix_refuted :
   (exists bytes ev, Forall byte bytes /\ icy_continue char_from_u32_unchecked 1 2 1 bytes = Done ev /\ ~ Forall ev_scalar ev).
 Proof. exact icy_before_fix_refuted_proof. Qed.
 
+(* the loop and the conversion of the snapshot commit (glyphs_v0) *)
 Theorem glyphs_before_fix_refuted :
-  exists h data, match glyphs char_from_u32_unchecked h data with
+  exists h data, match glyphs_v0 char_from_u32_unchecked h data with
                  | Done g => forallb (fun kg => scalarb (fst kg)) g = false
                  | _ => False
                  end.
@@ -158,13 +192,15 @@ Theorem fix_is_local_icy : forall chk y0 w h bs ev,
   cells char_from_u32_unchecked chk y0 w h bs = Done ev -> Forall ev_scalar ev -> cells char_from_u32 chk y0 w h bs = Done ev.
 Proof. exact fix_is_local_icy_proof. Qed.
 
+(* snapshot loop + unchecked conversion against the merged function (checked conversion, loop bounded by the
+   height, the data and MAX_GLYPHS) *)
 Theorem fix_is_local_glyphs : forall h data g,
-  glyphs char_from_u32_unchecked h data = Done g -> Forall key_scalar g -> glyphs conv_glyphs h data = Done g.
+  glyphs_v0 char_from_u32_unchecked h data = Done g -> Forall key_scalar g -> glyphs conv_glyphs h data = Done g.
 Proof. exact fix_is_local_glyphs_proof. Qed.
 
-(* no glyph is lost except those whose index is not a scalar value *)
+(* no glyph is lost except those whose index is MAX_GLYPHS or more (the merged code cuts the map at the char range) *)
 Theorem glyphs_complete : forall h data g, (0 < h)%nat -> glyphs conv_glyphs h data = Done g ->
-  forall k, scalar k -> ((N.to_nat k + 1) * h <= length data)%nat ->
+  forall k, k < MAX_GLYPHS -> ((N.to_nat k + 1) * h <= length data)%nat ->
   In (k, firstn h (skipn (N.to_nat k * h) data)) g.
 Proof. exact glyphs_complete_proof. Qed.
 
@@ -217,6 +253,28 @@ Proof. vm_compute. repeat split. Qed.
 Example glyphs_small : omap (fun g => (length g, map fst (firstn 2 g)))
   (glyphs conv_glyphs 1 (repeat 7 300)) = Done (300%nat, [0; 1]).
 Proof. vm_compute. reflexivity. Qed.
+
+(* 55297 one-byte glyphs: the map is cut at MAX_GLYPHS (keys 0..55295); the snapshot loop went on to 0xD800 *)
+Example glyphs_cut_at_max : omap (fun g => (N.of_nat (length g), fold_left (fun m kg => N.max m (fst kg)) g 0))
+  (glyphs conv_glyphs 1 (repeat 7 (N.to_nat 55297))) = Done (55296, 55295).
+Proof. vm_compute. reflexivity. Qed.
+
+(* a height of 0 consumes nothing, an incomplete last glyph is dropped *)
+Example glyphs_height0_and_tail :
+  glyphs conv_glyphs 0 [1; 2; 3] = Done [] /\ glyphs conv_glyphs 2 [1; 2; 3] = Done [(0, [1; 2])] /\
+  glyphs_v0 conv_glyphs 0 [1; 2; 3] = Diverge /\ glyphs_v0 conv_glyphs 2 [1; 2; 3] = Panic.
+Proof. vm_compute. repeat split. Qed.
+
+(* BitFont::from_bytes: a PSF2 file with two 2-row glyphs loads; a header announcing 55297 empty glyphs, a header cut
+   short and a 3-byte file are errors; PSF1 with mode 1 has length 512 *)
+Example from_bytes_cases :
+  font_from_bytes conv_glyphs ([0x72;0xb5;0x4a;0x86; 0;0;0;0; 32;0;0;0; 0;0;0;0; 2;0;0;0; 2;0;0;0; 2;0;0;0; 8;0;0;0] ++ [1;2;3;4])
+    = Done {| ft_length := 2; ft_glyphs := [(0, [1; 2]); (1, [3; 4])] |} /\
+  font_from_bytes conv_glyphs [0x72;0xb5;0x4a;0x86; 0;0;0;0; 32;0;0;0; 0;0;0;0; 1;0xD8;0;0; 0;0;0;0; 16;0;0;0; 8;0;0;0] = Rejected /\
+  font_from_bytes conv_glyphs [0x72;0xb5;0x4a;0x86; 0;0;0;0; 32;0;0;0] = Rejected /\
+  font_from_bytes conv_glyphs [0x36; 0x04; 1] = Rejected /\
+  font_from_bytes conv_glyphs [0x36; 0x04; 1; 1; 9] = Done {| ft_length := 512; ft_glyphs := [(0, [9])] |}.
+Proof. vm_compute. repeat split. Qed.
 
 (* "4142!2;43;" defines "ABCC" *)
 Example hexmacro_defines :
